@@ -239,6 +239,9 @@ func checkC09(p *Prog, r *Report) {
 	// reading or re-warming it costs gas that other nodes do not pay
 	checkPersistentStoresOnly(p, r, kp, "its content — and the gas spent reading or rebuilding it — depends on when this node was last restarted: two nodes processing the same block report different gas, results or state")
 
+	// D5d pooled objects are reset (pool.go)
+	checkPoolResetDiscipline(p, r, kp, scope)
+
 	// D2b no binary encoding of map-carrying messages (unordered.go)
 	checkNoUnorderedEncoding(p, r, kp, scope)
 
